@@ -229,6 +229,18 @@ func c19ConnectionFaults(c *Ctx, done chan<- struct{}) {
 		{"wrong method", "DELETE /hotp/generate HTTP/1.1\r\nHost: x\r\n\r\n", nil, false},
 		{"unknown path", "GET /nope HTTP/1.1\r\nHost: x\r\n\r\n", nil, false},
 		{"HEAD of an API path", "HEAD /ocra/suites HTTP/1.1\r\nHost: x\r\n\r\n", nil, false},
+		{"HEAD of the home page", "HEAD / HTTP/1.1\r\nHost: x\r\n\r\n", nil, false},
+		{"HEAD of the secret endpoint", "HEAD /otp/secret?algorithm=SHA256 HTTP/1.1\r\nHost: x\r\n\r\n", nil, false},
+		{"HEAD of a POST endpoint", "HEAD /totp/generate HTTP/1.1\r\nHost: x\r\n\r\n", nil, false},
+		{"HEAD of the documentation index", "HEAD /docs/index.html HTTP/1.1\r\nHost: x\r\n\r\n", nil, false},
+		{"HEAD of an unknown path", "HEAD /nope HTTP/1.1\r\nHost: x\r\n\r\n", nil, false},
+		{"OPTIONS of an API path", "OPTIONS /hotp/generate HTTP/1.1\r\nHost: x\r\nOrigin: http://a\r\nAccess-Control-Request-Method: POST\r\n\r\n", nil, false},
+		{"OPTIONS *", "OPTIONS * HTTP/1.1\r\nHost: x\r\n\r\n", nil, false},
+		{"a large body with an early syntax error", "POST /hotp/generate HTTP/1.1\r\nHost: x\r\nContent-Length: 200001\r\n\r\n", append([]byte("}"), big[:200000]...), false},
+		{"a large body after the first JSON value", "POST /hotp/generate HTTP/1.1\r\nHost: x\r\nContent-Length: 200002\r\n\r\n", append([]byte("{}"), big[:200000]...), false},
+		{"a large body on a wrong method", "PUT /hotp/generate HTTP/1.1\r\nHost: x\r\nContent-Length: 200000\r\n\r\n", big[:200000], false},
+		{"a large body on an unknown path", "POST /nope HTTP/1.1\r\nHost: x\r\nContent-Length: 200000\r\n\r\n", big[:200000], false},
+		{"a large body on a GET endpoint", "GET /ocra/suites HTTP/1.1\r\nHost: x\r\nContent-Length: 200000\r\n\r\n", big[:200000], false},
 		{"HEAD of a documentation asset", "HEAD /docs/swagger-ui.css HTTP/1.1\r\nHost: x\r\n\r\n", nil, false},
 		{"conditional request for a documentation page", "GET /docs/index.html HTTP/1.1\r\nHost: x\r\nIf-None-Match: \"x\", abc, \"y\"\r\nIf-Modified-Since: Mon, 02 Jan 2006 15:04:05 GMT\r\n\r\n", nil, false},
 		{"range request for a documentation asset", "GET /docs/swagger-ui.css HTTP/1.1\r\nHost: x\r\nRange: bytes=10-19\r\n\r\n", nil, false},
@@ -258,6 +270,12 @@ func c19ConnectionFaults(c *Ctx, done chan<- struct{}) {
 			readOne := func() (*httpResult, bool) {
 				resp, err := http.ReadResponse(br, &http.Request{Method: method})
 				if err != nil {
+					if strings.Contains(err.Error(), "malformed HTTP") {
+						// not a closed connection: bytes arrived, and they are not the start of an HTTP response
+						peek, _ := br.Peek(br.Buffered())
+						r.Violate("C19|connection|bytes-that-are-no-response|", "after a complete response the server sends bytes that are not an HTTP response (the responses on this connection are framed wrongly)", "none",
+							map[string]any{"first_request": f.note, "first_request_head": clipS(f.head)}, "an HTTP response, or a closed connection", err.Error()+" | next bytes: "+clipS(string(peek)))
+					}
 					return nil, false
 				}
 				b, rerr := io.ReadAll(resp.Body)
